@@ -33,11 +33,17 @@ def _kinds(v):
     return v["k"] if v["k"] != "union" else f"union{len(v['rs'])}"
 
 
-def _probe_versions(n: int) -> list[str]:
-    """Final releases realising the probes 0..2n under the PLAIN embedding (k.0 = bound k)."""
+COMPAT_GAPS = ["1.0", "1.5", "2.0.1", "2.0.9", "2.5", "3.0.0.1", "3.0.5", "3.5", "9"]      # final releases between the COMPAT bounds
+
+
+def _probe_versions(n: int, emb: str = "plain") -> list[str]:
+    """Final releases realising the probes 0..2n under the PLAIN embedding (k.0 = bound k) or the COMPAT one."""
     out = []
     for p in range(2 * n + 1):
-        out.append(f"{(p + 1) // 2}.0" if p % 2 == 1 else f"{p // 2}.5")
+        if emb == "compat":
+            out.append(spec_iface.COMPAT[(p + 1) // 2 - 1] if p % 2 == 1 else COMPAT_GAPS[p // 2])
+        else:
+            out.append(f"{(p + 1) // 2}.0" if p % 2 == 1 else f"{p // 2}.5")
     return out
 
 
@@ -76,11 +82,11 @@ def _replay_chunk(args):
                 fails.append(("C01", f"C01:{site}:foreign-bound", str(e), ctx))
                 continue
             ctx["got"] = got
-            if with_in and emb["name"] == "plain":
+            if with_in and emb["name"] in ("plain", "compat"):
                 # C04: membership through `in` / contains() on the result agrees with the denotation
                 dexp = spec_iface.den(exp, n)
                 try:
-                    for pnum, ver in enumerate(_probe_versions(n)):
+                    for pnum, ver in enumerate(_probe_versions(n, emb["name"])):
                         if bool(ver in r) != (pnum in dexp) or (hasattr(r, "contains") and bool(r.contains(ver)) != (pnum in dexp)):
                             fails.append(("C04", f"C04:{site}:in-vs-exact-set",
                                           f"{op} on {spec_iface.text_of(a, pts)!r}, {spec_iface.text_of(b, alt)!r}: `{ver} in result` is {ver in r}, exact set says {pnum in dexp}", ctx))
@@ -109,8 +115,8 @@ def _replay_chunk(args):
                                           f"{op} result {_s(r)} then {fname} gives {_s(fobj)}: wrong set", dict(ctx, follow=fname)))
                         elif bool(fobj.is_empty()) != (not fexp) or bool(fobj.is_any()) != (fexp == full):
                             fails.append(("C05", f"C05:{site}>>{fname}:is_empty-is_any", f"{_s(fobj)}", dict(ctx, follow=fname)))
-                        if with_in and emb["name"] == "plain":
-                            for pnum, ver in enumerate(_probe_versions(n)):
+                        if with_in and emb["name"] in ("plain", "compat"):
+                            for pnum, ver in enumerate(_probe_versions(n, emb["name"])):
                                 if bool(ver in fobj) != (pnum in fexp):
                                     fails.append(("C04", f"C04:{site}>>{fname}:in-vs-exact-set",
                                                   f"{op} then {fname}: `{ver} in {_s(fobj)}` is {ver in fobj}, exact set says {pnum in fexp}", dict(ctx, follow=fname)))
@@ -384,7 +390,7 @@ def pairs_membership(rep: Report, n: int) -> None:
     finally:
         import shutil
         shutil.rmtree(tmp, ignore_errors=True)
-    embs = [e for e in spec_iface.embeddings(n, rep.seed, 0) if e["name"] == "plain"]
+    embs = [e for e in spec_iface.embeddings(n, rep.seed, 0) if e["name"] in ("plain", "compat")]
     total = 0
     for done, fails in _pool_map(_replay_chunk, [(ch, n, embs, "ctor", True) for ch in _chunks(vectors, 64)]):
         total += done
